@@ -113,6 +113,8 @@ structure World where
   fails : Op → Nat → Bool      -- does the i-th (0-based) ptrace request of this kind fail?
   mmapRes : Nat                -- what the kernel answers to the injected mmap (an address, or -errno)
   callee : Tracee → Tracee     -- the called function, from its first instruction to its `ret` (arbitrary)
+  reach : List Addr := []      -- addresses of the code bytes the called function executes
+  orig : Code := fun _ => 0    -- the original code at those addresses
 
 def inPage (p a : Addr) : Bool := p ≤ a && a < p + PAGE_SIZE
 def isErrno (v : Nat) : Bool := W64 - 4095 ≤ v
@@ -155,6 +157,10 @@ def cpuCont (W : World) (t : Tracee) : Tracee :=
     let t2 := W.callee (atEntry t)
     { t2 with regs := t2.regs.set Rip (t.regs Rip + 3) }
   else { t with wild := true }
+
+/-- the callee would execute a byte that is not its original code (the debugger's own patch at the stop pc is still in
+place while the callee runs): it does not return onto the `int3`; the thread stops somewhere else with some signal -/
+def runsPatched (W : World) (t : Tracee) : Bool := W.reach.any fun a => (atEntry t).mem a != W.orig a
 
 /-! ### the debugger side -/
 structure Bp where
@@ -216,8 +222,10 @@ def stepOp (W : World) : M Unit := fun d =>
   if W.fails .step (d.cnt .step) then (.err .ptrace, emit (bump d .step) (.step false))
   else (.ok (), emit { bump d .step with t := cpuStep W d.t } (.step true))
 
+/-- `sys::ptrace::cont` + `waitpid` + `debug_assert!(res == Stopped(SIGTRAP))` (the harness builds with debug assertions) -/
 def contOp (W : World) : M Unit := fun d =>
   if W.fails .cont (d.cnt .cont) then (.err .ptrace, emit (bump d .cont) (.cont false))
+  else if runsPatched W d.t then (.panic, emit { bump d .cont with t := { atEntry d.t with wild := true } } (.cont true))
   else (.ok (), emit { bump d .cont with t := cpuCont W d.t } (.cont true))
 
 /-- `CallContext` -/
@@ -342,6 +350,6 @@ def callCmd (W : World) (fn : Option (Addr × List Ty)) (lits : List Lit) (pc : 
        | .ok args => callFnRaw W pc fnAddr args)
 
 /-- the world in which no ptrace request fails -/
-def noFaults (page : Nat) (callee : Tracee → Tracee) : World := ⟨fun _ _ => false, page, callee⟩
+def noFaults (page : Nat) (callee : Tracee → Tracee) : World := { fails := fun _ _ => false, mmapRes := page, callee := callee }
 
 end BsVerif.Call
